@@ -5,41 +5,16 @@ from pathlib import Path
 VERIF = Path(__file__).resolve().parent.parent
 BASELINE = "cd /repo && /venv/bin/python -m pytest -ra -q -p no:cacheprovider --timeout=900 --continue-on-collection-errors"
 
-CLAIMED = {
-    "C16": dict(
-        text="Machine-checked Lean 4 proof, for every call sequence of any length and interleaving, that both counter implementations "
-             "(translated statement-by-statement from the source on every run) hand out 1+k%191 / 192+k%64 (closed form), stay in range, "
-             "are successors in their own cycle, and that every call site picks the right counter (decide over the regenerated call-site table). "
-             "Tie: translator + full differential sweep of every reachable counter state against both real objects; wire clause checked on datagrams "
-             "built by the real clients.",
-        note="Trusted: Lean kernel; axioms propext/Classical.choice/Quot.sound only; harness/translate.py+py2lean.py (cross-checked by the sweep); "
-             "atomicity of threading.Lock (with-lock is checked syntactically; real-thread hammer in thorough tier is a test, not a proof).",
-        technique="Lean 4 induction over call sequences on source-translated definitions + decide over generated call-site table",
-        design="5/C16"),
-}
+import importlib
+import sys
+sys.path.insert(0, str(VERIF / "harness"))
 
-CLAIMED["C18"] = dict(
-    text="The quantifier is a finite table (164 modules, ~20 500 items): the kernel evaluates the decidable predicate PackModule.OK "
-         "(item addressability Item.WF, key resolution, module naming, refresh window) over the WHOLE table regenerated from the working tree "
-         "(decide +kernel, one obligation per module, assembled into `all_modules_ok`), proves the three known ill-formed items really are ill-formed, "
-         "and proves every module pinned at the audited commit is present field-for-field (`layout_immutable`). Search: independent Python "
-         "re-computation of well-formedness, pin diff item by item, FILES-reply naming for all 895 combinations.",
-    note="Trusted: Lean kernel; harness/packs.py extraction by import (what the library sees after accessor __init__) + ast check for duplicate dict keys; "
-         "pins/layout-236b7b1.json.gz is the layout at the audited commit. The generator input SpaPackStruct.xml is absent: well-formedness is judged on the shipped Python only.",
-    technique="Lean 4 kernel evaluation (decide +kernel) of decidable predicates over the complete regenerated tables",
-    design="5/C18")
-CLAIMED["C02"] = dict(
-    text="Lean 4 theorems for every item satisfying the decidable Item.WF (all shipped items except the 3 of finding D9, by C18's whole-table evaluation), "
-         "every 1024-byte block and every domain value: write-then-read returns the value (read_after_write + per-kind corollaries), only bits of the item's "
-         "own field change (write_touches_only_own_field), items with a disjoint field keep their value (other_items_unchanged), read-only items refuse, "
-         "string forms, and the blocking/awaitable paths emit identical writes. The shift/mask/merge arithmetic is translated from accessor.py on every run; "
-         "type dispatch / labels / time format are a hand model tied by a differential correspondence on the real accessors (thorough: all 20 505 items).",
-    note="Trusted: Lean kernel; translator for the three arithmetic expressions; the correspondence harness; 'applied to the block' = the spa stores struct.pack of the "
-         "value at pos (as the bundled simulator does). Temperature items' unit conversion is C14.",
-    technique="Lean 4 bit-level proofs (Nat.testBit) over source-translated merge arithmetic + differential correspondence of the hand model on all shipped items",
-    design="5/C02")
-
+CLAIMED = {}
 NOT_YET = {}
+for _f in sorted((VERIF / "harness" / "props").glob("c*.py")):
+    _m = importlib.import_module("props." + _f.stem)
+    if hasattr(_m, "MANIFEST"):
+        CLAIMED[_f.stem.upper()] = _m.MANIFEST
 
 ALL = [f"C{i:02d}" for i in range(1, 21)]
 
